@@ -391,6 +391,7 @@ func R20(p *core.Prog) *core.Result {
 		r.Floor("inline_folders_with_captured_visitor", n, 1)
 	}
 	omitFirst(p, r)
+	tagSkipName(p, r)
 	resolverIdentity(p, r)
 	nilFolder(p, r)
 	return r
